@@ -275,20 +275,27 @@ pub trait Language: Debug + Clone + Hash + Eq + Ord {
 
     // generated methods:
 
+    // The private occurrences are the occurrences (positions, not names!) that are not public:
+    // under shadowing the same name can occur both publicly and privately.
     #[doc(hidden)]
     fn private_slot_occurrences_mut(&mut self) -> Vec<&mut Slot> {
-        let public = self.public_slot_occurrences();
+        let public: HashSet<*const Slot> = self
+            .public_slot_occurrences_mut()
+            .into_iter()
+            .map(|x| x as *const Slot)
+            .collect();
         let mut out = self.all_slot_occurrences_mut();
-        out.retain(|x| !public.contains(x));
+        out.retain(|x| !public.contains(&(&**x as *const Slot)));
         out
     }
 
     #[doc(hidden)]
     fn private_slot_occurrences(&self) -> Vec<Slot> {
-        let public = self.public_slot_occurrences();
-        let mut out = self.all_slot_occurrences();
-        out.retain(|x| !public.contains(x));
-        out
+        let mut c = self.clone();
+        c.private_slot_occurrences_mut()
+            .into_iter()
+            .map(|x| *x)
+            .collect()
     }
 
     #[doc(hidden)]
